@@ -1,4 +1,4 @@
-import Librfn.Lemmas.IsrQuiet
+import Librfn.Lemmas.IsrMonV
 /-!
 # C06 — interrupt-context wake-ups and fibre events are never lost or duplicated
 (and C03's interrupt clause `wakeup_with_isr`)
@@ -329,6 +329,60 @@ example : (runIsr demoCfg { call := .eventSend 9 }).eq.received < (runIsr demoCf
     ∧ (runIsr demoCfg { call := .eventSend 9 }).eq.sent (runIsr demoCfg { call := .eventSend 9 }).eq.received = true
     ∧ (runIsr demoCfg { call := .eventSend 9 }).evWakeFailed = false ∧ (runIsr demoCfg { call := .eventSend 9 }).handlerKilled = false
     ∧ (runIsr demoCfg { call := .eventSend 9 }).a.owedFids = [0] := by decide +kernel
+
+/-! ## the model refines the abstract monitor: `runModel h ⊨ IsrSpec`
+
+Scope (`ItemOk`, a decidable predicate on the history): main-context calls with interrupt scripts (any placement, handlers
+nested inside handlers), interrupts between calls and quiescent runs — **no thread-sender items** — whose calls only name
+fibres that exist (`< nf`, the number of fibres the monitor's fairness bound counts).  Thread senders are excluded on purpose:
+while a sender on another thread sits between its claim and its send, later entries are hidden behind its unsent buffer, so
+the liveness verdicts (`starved`, `oversleeps`, "settled") are not theorems for them (the monitor itself suspends those
+rules while a thread sender is in flight); for thread senders only the safety theorems above (`Reach`) are claimed.
+The hypothesis `hung = false` says the executable runner was not cut for lack of fuel (an explicit output, never silent). -/
+
+/-- **the monitor never complains about the model**: on every in-scope history the verdict of `Spec/IsrSpec.lean` on the
+    model's own observations — no event out of order / from nowhere, no oversleeping pass, no starved request — is `ok` -/
+theorem model_refines_monitor (d : Nat) (kinds : List Kind) (budgets : List Nat) (h1 : 1 ≤ d) (h32 : d ≤ 32) (h : List Item)
+    (hok : ∀ it ∈ h, ItemOk (kinds.length + 1) it) (hh : (runHistory (initWith d kinds budgets) h).hung = false) :
+    (runHistory (initWith d kinds budgets) h).a.verdict = .ok := by
+  rcases good_runHistory d kinds budgets h1 h32 h hok with e | ⟨hr, _⟩
+  · rw [hh] at e; cases e
+  · exact reachR_verdict hr
+
+/-- **… and after the quiescent run nothing is owed and no event is outstanding**: if the history ends with a quiescent
+    run whose last pass was idle, every accepted request has been dispatched (or killed) and every event whose send returned
+    true has been processed (`owed = []`, `mustget = []`), with verdict `ok` -/
+theorem model_settles (d : Nat) (kinds : List Kind) (budgets : List Nat) (h1 : 1 ≤ d) (h32 : d ≤ 32) (h : List Item)
+    (hok : ∀ it ∈ h, ItemOk (kinds.length + 1) it)
+    (hh : (runHistory (initWith d kinds budgets) (h ++ [.quiesce])).hung = false)
+    (hidle : (runHistory (initWith d kinds budgets) (h ++ [.quiesce])).dispatchedNow = false) :
+    (runHistory (initWith d kinds budgets) (h ++ [.quiesce])).a.owed = []
+    ∧ (runHistory (initWith d kinds budgets) (h ++ [.quiesce])).a.mustGet = []
+    ∧ (runHistory (initWith d kinds budgets) (h ++ [.quiesce])).a.verdict = .ok := by
+  have hg := good_runHistory d kinds budgets h1 h32 h hok
+  have e : runHistory (initWith d kinds budgets) (h ++ [.quiesce])
+      = quiesceLoop 64 { ({ runHistory (initWith d kinds budgets) h with trace := [], fired := 0 } : S) with budget := fun _ => 0 } := by
+    unfold runHistory
+    rw [List.foldl_append]
+    rfl
+  rw [e] at hh hidle ⊢
+  have hg' : Good (kinds.length + 1) [] { ({ runHistory (initWith d kinds budgets) h with trace := [], fired := 0 } : S) with budget := fun _ => 0 } :=
+    good_main (s := { runHistory (initWith d kinds budgets) h with trace := [], fired := 0 })
+      (good_main hg rfl (fun hr _ => ReachR.newItem hr) rfl) rfl (fun hr _ => ReachR.noYields hr) rfl
+  exact settled_of_passEnd (qi_quiesceLoop 63 _ hg') hh hidle
+
+/-- the same in the words of the correspondence run: `settled` -/
+theorem model_settled_bool (d : Nat) (kinds : List Kind) (budgets : List Nat) (h1 : 1 ≤ d) (h32 : d ≤ 32) (h : List Item)
+    (hok : ∀ it ∈ h, ItemOk (kinds.length + 1) it)
+    (hh : (runHistory (initWith d kinds budgets) (h ++ [.quiesce])).hung = false)
+    (hidle : (runHistory (initWith d kinds budgets) (h ++ [.quiesce])).dispatchedNow = false) :
+    (runHistory (initWith d kinds budgets) (h ++ [.quiesce])).a.settled = true := by
+  obtain ⟨a, b, _⟩ := model_settles d kinds budgets h1 h32 h hok hh hidle
+  simp [A.settled, a, b]
+
+-- non-vacuity: `demo` is in scope, is not cut, ends idle after the quiescent run
+example : (∀ it ∈ demo, ItemOk 4 it) ∧ (runHistory demoCfg (demo ++ [.quiesce])).hung = false
+    ∧ (runHistory demoCfg (demo ++ [.quiesce])).dispatchedNow = false := by decide +kernel
 
 /-! ## the executable runner -/
 
